@@ -118,7 +118,6 @@ func scheduleHistory(rng *rand.Rand, out *Out) {
 	}
 	cold := synced.Reopen()
 	defer cold.Destroy()
-	ledgerT := l.term()
 	registered := map[types.Address]bool{}
 	for _, ds := range l.delegs {
 		for _, d := range ds {
@@ -144,7 +143,7 @@ func scheduleHistory(rng *rand.Rand, out *Out) {
 			if w.cls != 0 {
 				kind = "no-slot"
 			}
-			out.Case("producer", Tup(ledgerT, I64(ts)), w.term(), tag+":"+kind)
+			out.Case("producer", Tup(l.term(ts), I64(ts)), w.term(), tag+":"+kind)
 		}
 	}
 }
